@@ -19,12 +19,12 @@ TRUSTED = ['numpy.interp modelled as: x > xp[-1] -> right, x < xp[0] -> left, el
            'linear formula (numpy\'s guessed binary search is only reached for ascending xp on generated cases)',
            'binary64 arithmetic is exact or decision-safe on the exact stream (spacings < 2^21 units; nearest-method ties only generated '
            'when the spacing is a power of two)',
-           'float nan -> int32 cast gives INT_MIN (x86-64); np.round is round-half-even; PseudoNetCDFVariable[...] is a view',
+           'float nan -> int32 cast gives INT_MIN (x86-64); np.round is round-half-even',
            'cftime date2num is exact on dyadic offsets (checked per case against the rational value)']
 ASSUMPTIONS = ['theorems are over exact integers in a dyadic unit; binary64 rounding of the fractional index within a few ulp of an '
                'edge/midpoint is outside the model and covered only by the float stream + Python oracle (known finding C16-float-edge)',
-               'PseudoNetCDFFile in memory (coordinate access returns a view); netCDF4-backed files return copies, so the in-place '
-               'coordinate change does not persist there (the wrong last interior edge does)']
+               'the model describes val2idx as repaired by fixes/C16-val2idx-*.patch (pending fix: commits); run against a tree without '
+               'them the corpus cases corpus/C16/*.json fail and the check reports a violation']
 
 METHODS = ['nearest', 'bounds', 'exact']
 TUNITS = {'hours': 3600 * 10 ** 6, 'minutes': 60 * 10 ** 6, 'seconds': 10 ** 6, 'days': 86400 * 10 ** 6}
@@ -324,7 +324,7 @@ def impl(case):
 _M = {'nearest': 'MNearest', 'bounds': 'MBounds', 'exact': 'MExact'}
 _B = {'ignore': 'BIgnore', 'warn': 'BWarn', 'error': 'BError'}
 _CL = {'none': 'CNone', 'mask': 'CMask'}
-_ERR = {'NotImplementedError': 'ENotImpl', 'TypeError': 'ETypeErr', '_UFuncOutputCastingError': 'ECast', 'UFuncTypeError': 'ECast', 'IndexError': 'EIndex'}
+_ERR = {'NotImplementedError': 'ENotImpl', 'IndexError': 'EIndex'}
 
 
 def _err_of(obs):
@@ -353,10 +353,9 @@ def coq_term(case, obs):
     else:
         es = case['es']
         bv = '(Rows [%s])' % '; '.join('(%s, %s)' % (C.zc(a), C.zc(b)) for a, b in zip(es, es[1:]))
-    cfg = '(Cfg %s %s %s %s %s %s %s %s %s)' % (
+    cfg = '(Cfg %s %s %s %s %s %s %s)' % (
         _M.get(case['method'], 'MOther'), _B.get(case['bounds'], 'BOther'), _CL.get(case['clean'], 'COther'),
-        C.cbool(case['left'] == 'nan'), C.cbool(case['right'] == 'nan'), C.cbool(case['dtype'].startswith('i')),
-        C.cbool(case['vshape'] == 'scalar' and case['front'] == 'val2idx'),
+        C.cbool(case['left'] == 'nan'), C.cbool(case['right'] == 'nan'),
         C.zlist(case['cs']), bv)
     if 'raises' in obs:
         e = _err_of(obs)
@@ -450,7 +449,7 @@ def py_check(case, obs):
         es = [Fraction(float.fromhex(h)) for h in case['es_hex']]
         xs = [Fraction(float.fromhex(h)) for h in case['xs_hex']]
         why = _spec_cells(case['method'], cs, list(zip(es, es[1:])), xs, obs['cells'], False, False, 'mask')
-        region = 1 if cs[0] > cs[-1] else (4 if _near_boundary(case['method'], cs, es, xs) else 0)
+        region = 1 if _near_boundary(case['method'], cs, es, xs) else 0
         return dict(s_ok=not why, region=region, why='; '.join(why[:3]))
     if case['kind'].startswith('malformed'):
         return dict(s_ok=True, region=0, why='')      # judged by the Coq side (bad option words must raise NotImplementedError)
@@ -512,18 +511,16 @@ def shrink(case):
         yield dict(case, front='val2idx', tunit=None)
 
 
-LEVEL_TEXT = ('Theorems (Props/C16.v, all closed under the global context) over an exact Gallina model of val2idx (options, three bounds '
-              'representations, edge derivation incl. the in-place update, direction test, numpy.interp, round/truncate, masking, warning and '
-              'ValueError): for ascending coordinates of ANY length and spacing and EVERY query value, nearest returns a closest coordinate '
-              '(C16_nearest_correct_asc_partial), bounds returns a cell whose edges contain the value, clamps or masks out-of-range values as '
-              'requested (C16_bounds_correct_asc_partial), exact returns the equal coordinate or masks (C16_exact_correct_asc_partial); the '
-              'whole call warns / raises iff requested and some value is outside (C16_out_of_range_warned_or_rejected); n x 2 rows and derived '
-              'midpoint edges reduce to the edge-list case (C16_rows_are_cells, C16_derived_edges_nonuniform). The full statement is REFUTED '
-              'for descending coordinates (C16_descending_refuted, C16_descending_collapses), for derived edges of a uniformly spaced '
-              'coordinate (C16_derived_edges_refuted, C16_derived_edges_mutates_coordinate), at the top edge with right=nan '
-              '(C16_top_edge_refuted) and for scalar exact lookups (C16_scalar_exact_refuted): vm_compute witnesses that replay on the '
-              'library = known findings. Tie H: library vs model on dyadic inputs (cells, warning, exception, coordinate after the call); '
-              'binary64 1-ulp edge behaviour is decided by a rational Python oracle only (known finding C16-float-edge).')
+LEVEL_TEXT = ('Theorems (Props/C16.v, all closed under the global context) over an exact Gallina model of the repaired val2idx (options, three '
+              'bounds representations, edge derivation, direction test with reversal, numpy.interp, index clamp, round/truncate, masking, warning '
+              'and ValueError): for strictly monotonic coordinates in BOTH directions, of ANY length and spacing, and EVERY query value, nearest '
+              'returns a closest coordinate (C16_nearest_correct), bounds returns a cell whose edges contain the value (both outer edges '
+              'included) and clamps or masks out-of-range values as requested (C16_bounds_correct), exact returns the equal coordinate or masks '
+              '(C16_exact_correct); the whole call warns / raises iff requested and some value is outside '
+              '(C16_out_of_range_warned_or_rejected) and never changes the coordinate (C16_coordinate_unchanged); n x 2 rows and derived '
+              'midpoint edges reduce to the edge-list case (C16_rows_are_cells, C16_derived_edges_natural). Tie H: library vs model on dyadic '
+              'inputs (cells, warning, exception, coordinate after the call); the former failing inputs run first from corpus/C16. Binary64 '
+              '1-ulp edge behaviour is decided by a rational Python oracle only (known finding C16-float-edge).')
 LEVEL_NOTE = ('Trusted: Coq kernel + vm_compute; the correspondence harness; numpy.interp bracket search abstracted to the unique bracketing '
               'segment on ascending xp; binary64 exact/decision-safe on the dyadic stream; cftime date2num exact on dyadic offsets (checked). '
               'Not covered: a composite theorem over spec_outcome (the per-value theorems and the whole-call theorem are separate); masked or '
